@@ -17,6 +17,8 @@ type RuleCase struct {
 	Rules string
 	// Number: the field carries int64_encoding NUMBER
 	Number bool
+	// BytesEnc: bytes_encoding value of the field (0 = unset)
+	BytesEnc int32
 }
 
 var intKinds = []string{"int32", "int64", "uint32", "uint64", "sint32", "sint64", "fixed32", "fixed64", "sfixed32", "sfixed64"}
@@ -82,6 +84,9 @@ func RuleSpecs(thorough bool) ([]*spec.Spec, map[string][]RuleCase) {
 			if cs[i].Number {
 				f.I64(spec.EncNumber)
 			}
+			if cs[i].BytesEnc != 0 {
+				f.BEnc(cs[i].BytesEnc)
+			}
 			msg.Fields = append(msg.Fields, f)
 		}
 		f := &spec.File{Messages: []*spec.Message{msg, spec.M("Out", spec.F("ok", "bool"))},
@@ -137,6 +142,17 @@ func RuleSpecs(thorough bool) ([]*spec.Spec, map[string][]RuleCase) {
 		}
 		cs = append(cs, RuleCase{Kind: "string", Label: "rule=required", Rules: "required:true"})
 		mk("rules_string", "string", cs)
+	}
+	{
+		// bytes length rules under every bytes_encoding: not in C19's rule list, but whatever the document states about the
+		// length of the encoded text must accept every value the rules accept (C06)
+		var cs []RuleCase
+		for enc, en := range []string{"default", "base64", "base64_raw", "base64url", "base64url_raw", "hex"} {
+			for _, rc := range [][2]string{{"rule=min_len,bound=4", "bytes:{min_len:4}"}, {"rule=len,bound=16", "bytes:{len:16}"}, {"rule=max_len,bound=5", "bytes:{max_len:5}"}, {"rule=min_len+max_len,bound=2..7", "bytes:{min_len:2 max_len:7}"}} {
+				cs = append(cs, RuleCase{Kind: "bytes", Label: rc[0] + ",enc=" + en, Rules: rc[1], BytesEnc: int32(enc)})
+			}
+		}
+		mk("rules_bytes", "bytes", cs)
 	}
 	{
 		var cs []RuleCase
